@@ -17,6 +17,7 @@ import Driver.Listing
 import Driver.Macro
 import Driver.Link
 import Driver.Reader
+import Driver.Nest
 
 /-- instruction-level commands: dispatch on the CPU name (first argument) -/
 def isa (cmd : String) (args : List String) : String :=
@@ -71,6 +72,7 @@ def dispatch (line : String) : String :=
   | "tk" :: args => Driver.Reader.handleTk args
   | "mp" :: args => Driver.Reader.handleMp args
   | "mx" :: args => Driver.Reader.handleMx args
+  | "nest" :: args => Driver.Nest.handle args
   | _ => "bad-op"
 
 partial def loop (h : IO.FS.Stream) (out : IO.FS.Stream) : IO Unit := do
